@@ -9,11 +9,12 @@ class ObserverStartError(Exception):
 
 
 class RecordingObserver(ProgressObserver):
-    def __init__(self, tag="obs", yield_in_callbacks=False, fail_enter=False):
+    def __init__(self, tag="obs", yield_in_callbacks=False, fail_enter=False, fail_exit=False):
         self.tag = tag
         self.records = []
         self.yield_in_callbacks = yield_in_callbacks
         self.fail_enter = fail_enter
+        self.fail_exit = fail_exit
 
     def _rec(self, *ev):
         sim = current_sim()
@@ -30,6 +31,8 @@ class RecordingObserver(ProgressObserver):
 
     def __exit__(self, exc_type, exc_val, exc_tb):
         self._rec("exit", None if exc_type is None else exc_type.__name__)
+        if self.fail_exit:
+            raise ObserverStartError(self.tag + " (cannot finish)")
 
     def increment_total(self, *, section, scope, amount):
         self._rec("total", section, scope, amount)
